@@ -90,6 +90,10 @@ fn size_values(enc: &EncodedLzma, ops: &[Op], l: u64) -> Vec<(u64, &'static str)
         (1u64 << 40, "2^40"),
         (1u64 << 63, "2^63"),
         (u64::MAX - 1, "max-1"),
+        (u64::MAX, "u64::MAX"),
+        (l + (1u64 << 32), "L+2^32"),
+        (l + (3u64 << 32), "L+3*2^32"),
+        (l.wrapping_sub(1u64 << 32), "L-2^32 (wrapped)"),
     ];
     if l > 0 {
         v.push((l - 1, "L-1"));
